@@ -311,7 +311,9 @@ func blocksizeIsLenOfBlock(fn *ssa.Function) bool {
 		if !isA || al.Comment != "blocksize" {
 			return
 		}
-		if isLenOf(st.Val, func(x ssa.Value) bool { return strings.Contains(Canon(x), "commitBlock.") || strings.Contains(Canon(x), "block") }) {
+		if isLenOf(st.Val, func(x ssa.Value) bool {
+			return strings.Contains(Canon(x), "commitBlock.") || strings.Contains(Canon(x), "block")
+		}) {
 			ok = true
 		}
 	})
